@@ -318,6 +318,9 @@ def assign_iterable(lhs, rhs, other, ctx):
         lhs[rhs] = other
         return vy_sum(lhs, ctx=ctx)
     else:
+        # assign into a copy: the argument may still be referenced from the
+        # stack, a variable or the register
+        lhs = deep_copy(lhs) if isinstance(lhs, LazyList) else lhs[::]
         lhs[rhs] = other
         return lhs
 
